@@ -17,8 +17,15 @@ SI_EXP = {"QUECTO": -30, "RONTO": -27, "YOCTO": -24, "ZEPTO": -21, "ATTO": -18, 
           "EXA": 18, "ZETTA": 21, "YOTTA": 24, "RONNA": 27, "QUETTA": 30}
 
 
+_HUMP = re.compile(r"[A-Z]?[a-z]+|[A-Z]+(?![a-z])")
+
+
 def words(ident):
-    return [w for w in ident.split("_") if w]
+    """Words of an identifier: split at '_' and at lower->Upper boundaries (camel humps)."""
+    out = []
+    for piece in ident.split("_"):
+        out.extend(_HUMP.findall(piece) or ([piece] if piece else []))
+    return out
 
 
 def variant_name(ident):
@@ -171,6 +178,8 @@ class DefGen:
             ws = [self.word() for _ in range(nw)]
             if multiword and nw >= 2 and r.random() < 0.6:
                 ws[1] = ws[1].lower()                  # a lower-case word such as 'per'
+            if nw >= 2 and r.random() < 0.2 and all(w[0].isupper() for w in ws[:2]):
+                ws = [ws[0] + ws[1]] + ws[2:]          # camel hump without underscore: 'SquarePop'
 
             ident = "_".join(ws)
             key = const_name(ident)
@@ -306,7 +315,8 @@ class DefGen:
                                "doc": r.choice([None, None, "doc " + self.word()])})
         if r.random() < 0.3 and len(d["units"]) >= 2:
             # two tiny scales closer together than 1e-9, in either declaration order
-            pair = r.choice([("0.000000001", "0.000000000001"), ("0.0000000005", "0.0000000002"), ("0.00000000025", "0.0000000003")])
+            pair = r.choice([("0.000000001", "0.000000000001"), ("0.0000000005", "0.0000000002"), ("0.00000000025", "0.0000000003"),
+                             ("0.00000000000000001", "0.000000000000000001")])
             i, j = r.sample(range(len(d["units"])), 2)
             if r.random() < 0.5:
                 i, j = j, i
